@@ -8,7 +8,7 @@ Open Scope N_scope.
 
 (* ---- hostile text: what the XML parser reads from the escaped text is the value *)
 Theorem C03_hostile_text_safe_data : forall s,
-  forallb is_xml_char s = true -> mem 13 s = false -> text_value (sax_escape s) = Some s.
+  forallb is_xml_char s = true -> text_value (sax_escape_text s) = Some s.
 Proof. exact hostile_text_safe_data. Qed.
 Print Assumptions C03_hostile_text_safe_data.
 
@@ -17,10 +17,11 @@ Theorem C03_hostile_text_safe_attr : forall s,
 Proof. exact hostile_text_safe_attr. Qed.
 Print Assumptions C03_hostile_text_safe_attr.
 
-Theorem C03_hostile_text_cr_refuted :
+(* what the repair of XmlEventWriter removed: the standard library's escape() alone loses CR *)
+Theorem C03_stdlib_escape_loses_cr :
   exists s, forallb is_xml_char s = true /\ text_value (sax_escape s) <> Some s.
-Proof. exact hostile_text_cr_refuted. Qed.
-Print Assumptions C03_hostile_text_cr_refuted.
+Proof. exact stdlib_escape_loses_cr. Qed.
+Print Assumptions C03_stdlib_escape_loses_cr.
 
 (* ---- WInv: the event handler, run over any well-nested event list (flattened tree) from a
    steady state (inside an element whose start tag is out), performs exactly the SAX calls of
@@ -97,7 +98,7 @@ Print Assumptions C03_lxml_sound_unguarded_refuted.
 
 Theorem C03_user_prefix_xml_refuted :
   clause_vector default_config w_user_prefix_xml_user w_user_prefix_xml_evs
-  = [false; true; true; true; true; true; true; true; true; true; true]
+  = [false; true; true; true; true; true; true; true; true; true]
   /\ native_sound_b default_config w_user_prefix_xml_user w_user_prefix_xml_evs = false.
 Proof. exact user_prefix_xml_refuted. Qed.
 Print Assumptions C03_user_prefix_xml_refuted.
@@ -139,35 +140,29 @@ Theorem C03_non_xml_char_refuted :
 Proof. exact non_xml_char_refuted. Qed.
 Print Assumptions C03_non_xml_char_refuted.
 
-Theorem C03_cr_in_text_refuted :
-  only_clause_fails 5 (clause_vector default_config w_cr_in_text_user w_cr_in_text_evs) = true
-  /\ native_sound_b default_config w_cr_in_text_user w_cr_in_text_evs = false.
-Proof. exact cr_in_text_refuted. Qed.
-Print Assumptions C03_cr_in_text_refuted.
-
 Theorem C03_adjacent_data_refuted :
-  only_clause_fails 6 (clause_vector default_config w_adjacent_data_user w_adjacent_data_evs) = true
+  only_clause_fails 5 (clause_vector default_config w_adjacent_data_user w_adjacent_data_evs) = true
   /\ native_sound_b default_config w_adjacent_data_user w_adjacent_data_evs = false
   /\ lxml_sound_b default_config w_adjacent_data_user w_adjacent_data_evs = false.
 Proof. exact adjacent_data_refuted. Qed.
 Print Assumptions C03_adjacent_data_refuted.
 
 Theorem C03_late_qname_data_refuted :
-  only_clause_fails 7 (clause_vector default_config w_late_qname_data_user w_late_qname_data_evs) = true
+  only_clause_fails 6 (clause_vector default_config w_late_qname_data_user w_late_qname_data_evs) = true
   /\ native_sound_b default_config w_late_qname_data_user w_late_qname_data_evs = false
   /\ lxml_sound_b default_config w_late_qname_data_user w_late_qname_data_evs = false.
 Proof. exact late_qname_data_refuted. Qed.
 Print Assumptions C03_late_qname_data_refuted.
 
 Theorem C03_nil_kept_with_content_refuted :
-  only_clause_fails 8 (clause_vector default_config w_nil_kept_with_content_user w_nil_kept_with_content_evs) = true
+  only_clause_fails 7 (clause_vector default_config w_nil_kept_with_content_user w_nil_kept_with_content_evs) = true
   /\ native_sound_b default_config w_nil_kept_with_content_user w_nil_kept_with_content_evs = false
   /\ lxml_sound_b default_config w_nil_kept_with_content_user w_nil_kept_with_content_evs = false.
 Proof. exact nil_kept_with_content_refuted. Qed.
 Print Assumptions C03_nil_kept_with_content_refuted.
 
 Theorem C03_clark_datatype_text_refuted :
-  only_clause_fails 9 (clause_vector default_config w_clark_datatype_text_user w_clark_datatype_text_evs) = true
+  only_clause_fails 8 (clause_vector default_config w_clark_datatype_text_user w_clark_datatype_text_evs) = true
   /\ native_sound_b default_config w_clark_datatype_text_user w_clark_datatype_text_evs = false
   /\ lxml_sound_b default_config w_clark_datatype_text_user w_clark_datatype_text_evs = false.
 Proof. exact clark_datatype_text_refuted. Qed.
@@ -186,6 +181,13 @@ Example C03_std_prefix_collision_fixed :
   /\ lxml_sound_b default_config w_std_prefix_collision_user w_std_prefix_collision_evs = true.
 Proof. exact std_prefix_collision_fixed. Qed.
 Print Assumptions C03_std_prefix_collision_fixed.
+
+Example C03_cr_in_text_fixed :
+  writer_guard default_config [] w_cr_in_text_evs = true
+  /\ native_sound_b default_config [] w_cr_in_text_evs = true
+  /\ lxml_sound_b default_config [] w_cr_in_text_evs = true.
+Proof. exact cr_in_text_fixed. Qed.
+Print Assumptions C03_cr_in_text_fixed.
 
 (* ---- the guard is satisfiable by a non-trivial input, on which both writers are right *)
 Example C03_guard_non_vacuous :
